@@ -1,6 +1,6 @@
 (* Bus/T_C02.v -- C02: only rightful, intact messages; subscriptions are independent. *)
 From MB Require Import Base.
-From MB.Bus Require Import State Ops Step Defs.
+From MB.Bus Require Import State Ops Step Defs L02_Lists L02_Frame L02_Evo L02_Step.
 Local Open Scope string_scope.
 Open Scope list_scope.
 Open Scope Z_scope.
@@ -17,14 +17,57 @@ Theorem pull_sound st now name max returned others w fz fr p :
     p_msg p = m_id m /\ p_payload p = m_payload m /\ p_attrs p = m_attrs m /\
     p_key p = (match m_key m with Some k => k | None => EmptyString end) /\
     p_published p = m_published m /\ p_attempt p = d_attempts d + 1.
-Admitted.
+Proof.
+  unfold legal, answer. intros Hu Hl Hp.
+  destruct (pull_cases st now name max returned others w fz fr)
+    as [[c Hc]|(s & st1 & fr1 & ps & wk & n & Hmax & Hs & Ha & Hstep)].
+  - rewrite Hc in Hp. cbn in Hp. destruct Hp.
+  - rewrite Hstep in Hl, Hp. cbn [done r_notes r_resp pulled_of] in Hl, Hp.
+    apply app_eq_nil in Hl. destruct Hl as [Hsel _].
+    destruct (selection_legal st s now max returned others) eqn:Esel; [|discriminate].
+    apply selection_legal_facts in Esel.
+    apply apply_results_spec in Ha. destruct Ha as (_ & _ & Hps & _).
+    destruct (Hps p Hp) as (d & m & Hd & Hm & ->).
+    destruct Hu as (_ & _ & _ & Hud & _).
+    destruct (pull_cands_facts _ _ _ _ _ _ Hud Esel Hd) as (Hin & He & _).
+    cbn [pull_st0 set_subs msgs] in Hm. apply find_id_some in Hm. destruct Hm as [Hmi Hmk].
+    assert (Hsub : d_sub d = s_id s).
+    { unfold eligible in He. repeat (apply andb_true_iff in He; destruct He as [He ?]).
+      apply N.eqb_eq in He. exact He. }
+    exists s, d, m. cbn [pulled_from p_ack p_msg p_payload p_attrs p_key p_published p_attempt].
+    split; [exact Hs|]. split; [exact Hin|]. split; [exact Hmi|]. split; [reflexivity|].
+    split; [exact Hsub|]. split; [symmetry; exact Hmk|]. split; [exact He|].
+    repeat (split; [reflexivity|]). reflexivity.
+Qed.
 
 (* at most max items, and no delivery twice within one response *)
 Theorem pull_bounded st now name max returned others w fz fr :
   legal st now (Pull name max returned others w fz fr) ->
   let l := pulled_of (answer st now (Pull name max returned others w fz fr)) in
   Z.of_nat (length l) <= Z.max max 0 /\ NoDup (map p_ack l).
-Admitted.
+Proof.
+  unfold legal, answer. intros Hl.
+  destruct (pull_cases st now name max returned others w fz fr)
+    as [[c Hc]|(s & st1 & fr1 & ps & wk & n & Hmax & Hs & Ha & Hstep)].
+  - rewrite Hc. cbn. split; [lia|constructor].
+  - rewrite Hstep in Hl |- *. cbn [done r_notes r_resp pulled_of] in Hl |- *.
+    apply app_eq_nil in Hl. destruct Hl as [Hsel _].
+    destruct (selection_legal st s now max returned others) eqn:Esel; [|discriminate].
+    apply selection_legal_facts in Esel. destruct Esel as [Hnd Hlen Hel].
+    apply apply_results_spec in Ha. destruct Ha as (_ & Hlps & Hp & Hn).
+    pose proof (flat_opt_length (get_del st) (returned ++ others)) as Hfl.
+    fold (pull_cands st (returned ++ others)) in Hfl.
+    split; [lia|].
+    apply Hn. unfold pull_cands.
+    clear - Hnd. induction (returned ++ others) as [|i l IH]; cbn [flat_map map]; [constructor|].
+    inversion Hnd as [|a b Hni Hnd']; subst.
+    destruct (get_del st i) as [d|] eqn:Ed; cbn [app map]; [|apply IH; exact Hnd'].
+    constructor; [|apply IH; exact Hnd'].
+    intros Hi. apply in_map_iff in Hi. destruct Hi as (d' & Hk & Hi).
+    apply in_flat_opt in Hi. destruct Hi as (j & Hj & Hg).
+    apply find_id_some in Hg. apply find_id_some in Ed.
+    apply Hni. destruct Hg as [_ Hg]. destruct Ed as [_ Ed]. congruence.
+Qed.
 
 (* ---- provenance: where deliveries come from ---- *)
 (* A step creates a delivery row on subscription s for message m only if the filter of s
@@ -41,7 +84,40 @@ Theorem new_delivery_provenance st now o d :
                (exists src ssub, In src (dels st) /\ d_msg src = d_msg d /\ get_sub st (d_sub src) = Some ssub /\
                                  full_dl ssub = true /\ s_dl_topic ssub = Some (s_topic s) /\
                                  max_attempts_of ssub <= d_attempts src)).
-Admitted.
+Proof.
+  intros Hu Hl Hd Hfresh. apply has_id_false in Hfresh.
+  assert (Hother : (match o with Publish _ _ _ => False | _ => True end) ->
+    exists s m, In s (subs st) /\ s_id s = d_sub d /\ sub_live s = true /\
+              In m (msgs (post st now o)) /\ m_id m = d_msg d /\
+              filter_accepts (s_filter s) (m_attrs m) = true /\
+              d_attempts d = 0 /\ d_completed d = None /\
+              ((exists t ms fr, o = Publish t ms fr /\ m_topic m = s_topic s) \/
+               (exists src ssub, In src (dels st) /\ d_msg src = d_msg d /\ get_sub st (d_sub src) = Some ssub /\
+                                 full_dl ssub = true /\ s_dl_topic ssub = Some (s_topic s) /\
+                                 max_attempts_of ssub <= d_attempts src))).
+  { intros Hnp. destruct (step_evo st now o Hu Hl Hnp) as (H1 & _).
+    destruct (H1 d Hd) as [Hin|[(c & Hc & Hi & _)|[_ (Hp & Hpm)]]].
+    - exfalso. apply Hfresh. apply in_map. exact Hin.
+    - exfalso. apply Hfresh. rewrite <- Hi. apply in_map. exact Hc.
+    - destruct Hp as (s & m & H2 & H3 & H4 & H5 & H6 & H7 & H8 & H9 & src & ssub & Hsrc).
+      exists s, m. rewrite Hpm. repeat (split; [assumption|]).
+      right. exists src, ssub. exact Hsrc. }
+  destruct o; try (apply Hother; exact I). clear Hother.
+  unfold legal, post in *. unfold step in *.
+  destruct (negb (valid_topic_name topic)).
+  { exfalso. apply Hfresh. apply in_map. exact Hd. }
+  destruct (find_live_topic st topic) as [t|].
+  2:{ exfalso. apply Hfresh. apply in_map. exact Hd. }
+  destruct (publish_all st t ms fr) as [[[[st' fr'] w] n]|] eqn:Ep.
+  2:{ exfalso. apply Hfresh. apply in_map. exact Hd. }
+  cbn [done r_notes r_state] in *.
+  apply app_eq_nil in Hl. destruct Hl as [-> _].
+  destruct (publish_all_prov _ _ _ _ _ _ _ _ Ep eq_refl) as (_ & _ & Hprov).
+  destruct (Hprov d Hd) as [Hin|(s & m & H2 & H3 & H4 & H5 & H6 & H7 & H8 & H9 & H10)].
+  { exfalso. apply Hfresh. apply in_map. exact Hin. }
+  exists s, m. repeat (split; [assumption|]).
+  left. exists topic, ms, fr. split; [reflexivity|exact H10].
+Qed.
 
 (* ---- independence ---- *)
 (* the subscriptions whose deliveries an operation may touch, besides creating
@@ -65,14 +141,29 @@ Theorem independent st now o sid d :
   ids_unique st -> legal st now o -> touches st o sid = false ->
   (match o with Publish _ _ _ => False | _ => True end) ->
   In d (dels st) -> d_sub d = sid -> In d (dels (post st now o)).
-Admitted.
+Proof.
+  intros Hu Hl Ht Hnp Hd Hs.
+  destruct (step_evo st now o Hu Hl Hnp) as (_ & H2).
+  destruct (H2 d Hd) as [H|H]; [exact H|].
+  unfold Tof in H. change (tch st o (d_sub d)) with (touches st o (d_sub d)) in H.
+  rewrite Hs in H. congruence.
+Qed.
 
 Theorem independent_new st now o sid d :
   ids_unique st -> legal st now o -> touches st o sid = false ->
   (match o with Publish _ _ _ => False | _ => True end) ->
   In d (dels (post st now o)) -> d_sub d = sid -> ~ In d (dels st) ->
   has_id d_id (d_id d) (dels st) = false /\ d_attempts d = 0 /\ d_completed d = None.
-Admitted.
+Proof.
+  intros Hu Hl Ht Hnp Hd Hs Hnin.
+  destruct (step_evo st now o Hu Hl Hnp) as (H1 & _).
+  destruct (H1 d Hd) as [Hin|[(c & Hc & Hi & Hcs & _ & HT)|[Hfresh (Hp & _)]]].
+  - contradiction.
+  - exfalso. unfold Tof in HT. change (tch st o (d_sub c)) with (touches st o (d_sub c)) in HT.
+    rewrite Hcs, Hs in HT. congruence.
+  - split; [apply has_id_false; exact Hfresh|].
+    destruct Hp as (s & m & _ & _ & _ & _ & _ & _ & H8 & H9 & _). split; assumption.
+Qed.
 
 (* deleting or reconfiguring a subscription never changes any delivery row at all *)
 Theorem config_ops_leave_deliveries st now o :
@@ -84,4 +175,13 @@ Theorem config_ops_leave_deliveries st now o :
    | _ => False
    end) ->
   dels (post st now o) = dels st /\ msgs (post st now o) = msgs st.
-Admitted.
+Proof.
+  intros H. apply config_dm. destruct o; try contradiction; exact I.
+Qed.
+
+Print Assumptions pull_sound.
+Print Assumptions pull_bounded.
+Print Assumptions new_delivery_provenance.
+Print Assumptions independent.
+Print Assumptions independent_new.
+Print Assumptions config_ops_leave_deliveries.
